@@ -34,7 +34,7 @@ def rand_frame(rng):
         if n >= 3:
             body[0:3] = [2, 0xf0, 0x80]
         return [3, 0, (n + 4) >> 8, (n + 4) & 255] + body
-    first = rng.choice([0, 4, 0x40, 0x80, 0xc0, 0xfc, 0x3c])
+    first = rng.choice([0, 4, 0x40, 0x80, 0xc0, 0xfc, 0x3c, 1, 2, 7, 0x43, 0x83, 0xc3, 0xff, rng.choice([b for b in range(256) if b != 3])])
     if k < 0.75 and n + 2 < 128:
         return [first, n + 2] + body
     return [first, 0x80 | ((n + 3) >> 8), (n + 3) & 255] + body
@@ -223,7 +223,7 @@ def run(tier, seed):
                "as_implemented_model_experiment": {"cfg": "MC_TransportRead_asimpl.cfg (ZeroLenBody = read_available)", "violates": exp.violated},
                "binding_selftest_rejected": tested, "checker_cmd": mc.cmd, "exhaustive": True}
         return v.finish("model_checking", cov, [
-            "first byte 0x03 starts a slow-path frame, any other first byte a fast-path frame (conformant first bytes have the two low bits clear)",
+            "first byte 0x03 starts a slow-path frame, any other first byte a fast-path frame (conformant first bytes have the two low bits clear; all 255 are in the tables)",
             "the scripted stream returns Ok(0) when exhausted (a live socket would block instead)",
             "payload content equality for the 100k-row tables is checked by the harness against a position-dependent pattern; sizes, kinds, flags and consumption come from TLC's table"])
     finally:
